@@ -7,8 +7,8 @@ interpreter.cpp, not from the Coq model) says whether the library's answer diffe
 also cross-checked against the extracted Coq Core model on every case.  A difference is attributed to a
 known class only when the corresponding trigger fired while CORE executed the script (decided from the
 case alone)."""
-import hashlib
-from core import Case
+import hashlib, json, os
+from core import Case, VERIF
 
 PROP = 'C19'
 COQ_FILES = ['Extract/C19.v', 'Properties/C19.v']
@@ -62,6 +62,133 @@ ITEMS = [bytes.fromhex(h) for h in ('', '00', '80', '01', '81', '02', '05', '7f'
 def hx(b):
     return b.hex() if b else '-'
 
+
+# ---------------------------------------------------------------- secp256k1 ECDSA, written from SEC 1 / SEC 2 (never /repo)
+# The oracle verifies every signature ITSELF over the message of the evaluation it belongs to: a verdict remembered from
+# another evaluation (other message, same signature and key) cannot agree with it by construction.
+EC_P = 2 ** 256 - 2 ** 32 - 977
+EC_N = 0xFFFFFFFFFFFFFFFFFFFFFFFFFFFFFFFEBAAEDCE6AF48A03BBFD25E8CD0364141
+EC_G = (0x79BE667EF9DCBBAC55A06295CE870B07029BFCDB2DCE28D959F2815B16F81798,
+        0x483ADA7726A3C4655DA4FBFC0E1108A8FD17B448A68554199C47D08FFB10D4B8)
+
+
+def _jdbl(p):
+    x, y, z = p
+    if not y or not z:
+        return (0, 1, 0)
+    a = x * x % EC_P
+    b = y * y % EC_P
+    c = b * b % EC_P
+    d = 2 * ((x + b) * (x + b) - a - c) % EC_P
+    e = 3 * a % EC_P
+    x3 = (e * e - 2 * d) % EC_P
+    return (x3, (e * (d - x3) - 8 * c) % EC_P, 2 * y * z % EC_P)
+
+
+def _jadd(p, q):
+    if not p[2]:
+        return q
+    if not q[2]:
+        return p
+    x1, y1, z1 = p
+    x2, y2, z2 = q
+    z1s, z2s = z1 * z1 % EC_P, z2 * z2 % EC_P
+    u1, u2 = x1 * z2s % EC_P, x2 * z1s % EC_P
+    s1, s2 = y1 * z2s * z2 % EC_P, y2 * z1s * z1 % EC_P
+    if u1 == u2:
+        return _jdbl(p) if s1 == s2 else (0, 1, 0)
+    h, r = (u2 - u1) % EC_P, (s2 - s1) % EC_P
+    h2 = h * h % EC_P
+    h3 = h2 * h % EC_P
+    x3 = (r * r - h3 - 2 * u1 * h2) % EC_P
+    return (x3, (r * (u1 * h2 - x3) - s1 * h3) % EC_P, h * z1 * z2 % EC_P)
+
+
+def _jmul(k, pt):
+    acc, q = (0, 1, 0), (pt[0], pt[1], 1)
+    while k:
+        if k & 1:
+            acc = _jadd(acc, q)
+        q = _jdbl(q)
+        k >>= 1
+    return acc
+
+
+def _affine(p):
+    if not p[2]:
+        return None
+    zi = pow(p[2], EC_P - 2, EC_P)
+    return (p[0] * zi * zi % EC_P, p[1] * zi * zi * zi % EC_P)
+
+
+def pub_of(d):
+    x, y = _affine(_jmul(d, EC_G))
+    return bytes([2 + (y & 1)]) + x.to_bytes(32, 'big')
+
+
+_POINTS = {}
+
+
+def key_point(pk):
+    """SEC 1 octet string -> point; None when it is not a compressed / uncompressed point on the curve"""
+    if pk in _POINTS:
+        return _POINTS[pk]
+    pt = None
+    if len(pk) == 33 and pk[0] in (2, 3):
+        x = int.from_bytes(pk[1:], 'big')
+        if x < EC_P:
+            y2 = (x * x * x + 7) % EC_P
+            y = pow(y2, (EC_P + 1) // 4, EC_P)
+            if y * y % EC_P == y2:
+                pt = (x, y if (y & 1) == (pk[0] & 1) else EC_P - y)
+    elif len(pk) == 65 and pk[0] == 4:
+        x, y = int.from_bytes(pk[1:33], 'big'), int.from_bytes(pk[33:], 'big')
+        if x < EC_P and y < EC_P and (y * y - x * x * x - 7) % EC_P == 0:
+            pt = (x, y)
+    _POINTS[pk] = pt
+    return pt
+
+
+def ecdsa_sign(d, msg):
+    """deterministic (nonce from a hash of key and message), low S, DER + SIGHASH_ALL byte"""
+    z = int.from_bytes(msg, 'big')
+    k = int.from_bytes(hashlib.sha256(b'c19-nonce' + d.to_bytes(32, 'big') + msg).digest(), 'big') % EC_N or 1
+    r = _affine(_jmul(k, EC_G))[0] % EC_N
+    sv = pow(k, EC_N - 2, EC_N) * (z + r * d) % EC_N
+    if sv > EC_N // 2:
+        sv = EC_N - sv
+
+    def der_int(v):
+        b = v.to_bytes(32, 'big').lstrip(b'\x00')
+        return b'\x02' + bytes([len(b) + (b[0] >> 7)]) + (b'\x00' if b[0] & 0x80 else b'') + b
+    body = der_int(r) + der_int(sv)
+    return b'\x30' + bytes([len(body)]) + body + b'\x01'
+
+
+_VERIFIED = {}
+
+
+def sig_ok(msg, sig, pk):
+    """ECDSA verification of a BIP66-encoded signature (+ hash type byte) over the 32-byte digest msg"""
+    key = (msg, sig, pk)
+    if key in _VERIFIED:
+        return _VERIFIED[key]
+    ok = False
+    q = key_point(pk)
+    if q is not None and msg is not None and len(msg) == 32 and der_ok(sig):
+        lr = sig[3]
+        r = int.from_bytes(sig[4:4 + lr], 'big')
+        sv = int.from_bytes(sig[6 + lr:-1], 'big')
+        if 0 < r < EC_N and 0 < sv < EC_N:
+            w = pow(sv, EC_N - 2, EC_N)
+            z = int.from_bytes(msg, 'big')
+            pt = _affine(_jadd(_jmul(z * w % EC_N, EC_G), _jmul(r * w % EC_N, q)))
+            ok = pt is not None and pt[0] % EC_N == r
+    _VERIFIED[key] = ok
+    return ok
+
+
+MESSAGE = hashlib.sha256(b'c19').digest()            # the digest of every `ev` request (c19_impl.MESSAGE)
 
 # what Signature.parse_bytes + Signature.verify do on this universe (measured once against the library; any
 # drift shows as a correspondence failure): valid / invalid for the three keys and for an EMPTY key, raise otherwise
@@ -167,19 +294,23 @@ NOPS = {97, 176, 179, 180, 181, 182, 183, 184, 185}
 T = 500000000
 
 
-def core_checksig(sig, pk, trig):
+def core_checksig(sig, pk, trig, msg):
     if sig == b'':
         trig.add('checksig_raises')           # library: Signature.parse_bytes(b'') raises -> script invalid
         return False
     if not der_ok(sig):
         raise Fail()
-    if pk not in KEYS and pk != b'':
+    if key_point(pk) is None and pk != b'':
         trig.add('checksig_raises')           # library: key bytes that do not parse raise -> script invalid
-    return (sig, pk) in VALID_PAIRS
+    if msg is None:
+        trig.add('no_message')                # no digest to check against: not an evaluation consensus knows
+        raise Fail()
+    return sig_ok(msg, sig, pk)
 
 
-def core_eval(cmds, env, limits=True):
-    """-> (verdict, stack bottom..top, set of deviation triggers that fired while Core executed the script)"""
+def core_eval(cmds, env, limits=True, msg=MESSAGE):
+    """-> (verdict, stack bottom..top, set of deviation triggers that fired while Core executed the script);
+    msg is the digest the signatures of THIS evaluation are checked against (real ECDSA, sig_ok)"""
     st, vf, elses, trig = [], [], [], set()
     alt = []
     nops = 0
@@ -418,7 +549,7 @@ def core_eval(cmds, env, limits=True):
             elif n in (172, 173):
                 if len(st) < 2:
                     raise Fail()
-                ok = core_checksig(st[-2], st[-1], trig)
+                ok = core_checksig(st[-2], st[-1], trig, msg)
                 st.pop(); st.pop()
                 st.append(b'\x01' if ok else b'')
                 if n == 173:
@@ -457,7 +588,7 @@ def core_eval(cmds, env, limits=True):
                     sig, pk = st[-isig], st[-ikey]
                     if sig != b'' and not der_ok(sig):
                         raise Fail()
-                    good = (sig, pk) in VALID_PAIRS
+                    good = sig != b'' and sig_ok(msg, sig, pk)
                     if good:
                         isig += 1
                         ns -= 1
@@ -502,7 +633,9 @@ def core_eval(cmds, env, limits=True):
                 if sq is None or ver is None:
                     raise Fail()                             # no transaction context
                 if not sv & (1 << 31):
-                    if ver < 2 or sq & (1 << 31):
+                    if ver < 0:
+                        trig.add('csv_signed_version')       # outside 0 .. 2^32-1: Core reads the field as uint32_t
+                    if (ver & 0xffffffff) < 2 or sq & (1 << 31):
                         raise Fail()
                     mask = (1 << 22) | 0xffff
                     a, b = sv & mask, sq & mask
@@ -527,33 +660,121 @@ def core_eval(cmds, env, limits=True):
         return 'OUT', st, trig
 
 
-def ref(c):
+def stack_tok(st):
+    return ','.join(hx(x) for x in st) if st else '.'
+
+
+# ---------------------------------------------------------------- requests -> what they denote (also used by --replay)
+def unhx(t):
+    return b'' if t == '-' else bytes.fromhex(t)
+
+
+def cmds_of_tok(t):
+    if t == '-':
+        return []
+    return [int(x[1:], 16) if x[0] == 'o' else unhx(x[1:]) for x in t.split(',')]
+
+
+def env_of_tok(t):
+    """R:S:L:V -> dict (None = key absent); 'N' alone = no env_data argument at all"""
+    if t == 'N':
+        return None
+    r, sq, lt, v = t.split(':')
+    return dict(redeemscript=None if r == 'N' else unhx(r), sequence=None if sq == 'N' else int(sq),
+                locktime=None if lt == 'N' else int(lt), version=None if v == 'N' else int(v))
+
+
+def parse_steps(toks):
+    steps = []
+    for t in toks:
+        f = t.split('/')
+        if f[0] == 'N':
+            steps.append(('N', int(f[1]), cmds_of_tok(f[2]), None if f[3] == 'N' else unhx(f[3]), env_of_tok(f[4])))
+        else:
+            steps.append(('E', int(f[1]), None if f[2] == 'N' else unhx(f[2]), env_of_tok(f[3])))
+    return steps
+
+
+def meta_of(c):
+    """the case's meaning; rebuilt from the request line when the case comes from a replay file"""
+    if c.meta is None:
+        c.meta = {}
     m = c.meta
+    if 'steps' not in m and 'cmds' not in m:
+        t = c.req.split(' ')
+        if t[0] == 'ses':
+            m['steps'] = parse_steps(t[3:])
+        else:
+            m['cmds'], m['env'] = cmds_of_tok(t[4]), env_of_tok(t[1])
+    return m
+
+
+def is_session(c):
+    return c.req.startswith('ses ')
+
+
+def resolve(steps):
+    """the documented meaning of a session, written from the docstrings of Script.__init__ / Script.evaluate: an
+    evaluation uses the commands its object was constructed with, the message given to this call (else the last one
+    given to the object, else the constructor's) and the env_data given to this call (else the last one, else the
+    constructor's, else {}).  Nothing else takes part.  -> per step None (constructor) or (cmds, msg, env)"""
+    objs, out = {}, []
+    for st in steps:
+        if st[0] == 'N':
+            objs[st[1]] = [st[2], st[3], st[4] if st[4] else {}]
+            out.append(None)
+        else:
+            o = objs.get(st[1])
+            if o is None:
+                out.append('missing')
+                continue
+            if st[2] is not None:
+                o[1] = st[2]
+            if st[3] is not None:
+                o[2] = st[3]
+            out.append((o[0], o[1], o[2]))
+    return out
+
+
+def ref(c):
+    m = meta_of(c)
     if 'ref' not in m:
         m['ref'] = core_eval(m['cmds'], m['env'])
     return m['ref']
 
 
-def stack_tok(st):
-    return ','.join(hx(x) for x in st) if st else '.'
+def sref(c):
+    """per step of a session: None | (consensus verdict, stack, triggers, (cmds, msg, env))"""
+    m = meta_of(c)
+    if 'sref' not in m:
+        out = []
+        for r in resolve(m['steps']):
+            if r is None or r == 'missing':
+                out.append(None)
+            else:
+                out.append(core_eval(r[0], r[2], msg=r[1]) + (r,))
+        m['sref'] = out
+    return m['sref']
+
+
+def cmds_in_domain(cmds):
+    # integers 1..78 in a command list are push opcodes, not commands of a parsed script
+    return not any(isinstance(x, int) and 1 <= x <= 78 for x in cmds)
 
 
 def in_domain(c):
-    # integers 1..78 in a command list are push opcodes, not commands of a parsed script
-    return not any(isinstance(x, int) and 1 <= x <= 78 for x in c.meta['cmds'])
+    m = meta_of(c)
+    if 'steps' in m:
+        return all(cmds_in_domain(st[2]) for st in m['steps'] if st[0] == 'N')
+    return cmds_in_domain(m['cmds'])
 
 
-def prop_check(c, out):
-    if out.startswith('ODD') or out == 'BADREQ':
-        return 'unexpected answer %r' % out[:100]
-    if not in_domain(c):
-        return None
-    v, stk = out.split(' ', 1)
+def judge(v, stk, rv, rst):
+    """one evaluation against consensus: library verdict token + stack token vs reference verdict + stack"""
     if v == 'UNIMPL':
         return None                         # outside "the opcodes the library implements"
-    rv, rst, _ = ref(c)
     if rv == 'OUT':
-        return 'library evaluates an opcode the consensus reference of this check does not cover: %s' % out[:80]
+        return 'library evaluates an opcode the consensus reference of this check does not cover: %s %s' % (v, stk[:80])
     lv = 'INVALID' if v.startswith('CRASH') else v
     if lv != rv:
         return 'library says %s, consensus says %s (final stack %s)' % (v, rv, stack_tok(rst)[:80])
@@ -563,14 +784,67 @@ def prop_check(c, out):
     return None
 
 
+def triple_tok(r):
+    ct = cmd_tok(r[0])
+    if len(ct) > 150:
+        ct = ct[:70] + '..' + ct[-70:]
+    return '%s msg=%s env=%s' % (ct, 'None' if r[1] is None else r[1].hex()[:16], env_tok(r[2]))
+
+
+def session_check(c, out):
+    """every evaluation of the session on its own against consensus (signatures verified over the message of THAT
+    evaluation), plus: equal (commands, message, env_data) evaluated twice in the process give equal answers"""
+    refs = sref(c)
+    toks = out.split(';')
+    if len(toks) != len(refs):
+        return 'session answered %d steps of %d: %s' % (len(toks), len(refs), out[:120])
+    seen = {}
+    for i, (t, r) in enumerate(zip(toks, refs)):
+        if r is None:
+            if t not in ('-', 'MISSING'):
+                return 'step %d: unexpected answer %r' % (i, t[:80])
+            continue
+        if t.startswith('ODD') or ':' not in t:
+            return 'step %d: unexpected answer %r' % (i, t[:100])
+        v, stk = t.rsplit(':', 1)
+        rv, rst, trig, trip = r
+        k = triple_tok(trip)
+        fk = (cmd_tok(trip[0]), trip[1], env_tok(trip[2]))
+        if fk in seen and seen[fk][1] != t:
+            return ('step %d and step %d evaluate the same commands under the same message and env_data in one process '
+                    'and answer differently: %s then %s [%s]' % (seen[fk][0], i, seen[fk][1][:60], t[:60], k))
+        seen.setdefault(fk, (i, t))
+        if trig:
+            continue                        # a recorded deviation class fired in this evaluation: not judged here
+        bad = judge(v, stk, rv, rst)
+        if bad:
+            return 'step %d of the session (%s): %s' % (i, k, bad)
+    return None
+
+
+def prop_check(c, out):
+    if out.startswith('ODD') or out == 'BADREQ' or out.startswith('CRASH '):
+        return 'unexpected answer %r' % out[:100]
+    if not in_domain(c):
+        return None
+    if is_session(c):
+        return session_check(c, out)
+    v, stk = out.split(' ', 1)
+    rv, rst, _ = ref(c)
+    return judge(v, stk, rv, rst)
+
+
 CLASS_IDS = ['sub_operand_order', 'pick_index_off_by_one', 'roll_index_off_by_one', 'tuck_is_over', '2swap_order',
              'truthiness_nonempty', 'numequal_compares_bytes', 'numequalverify_long_operand_continues',
              'within_operand_order', 'checkmultisig_conventions',
-             'second_else_ignored', 'checksig_raises', 'unexecuted_or_disabled_opcode', 'no_resource_limits']
+             'second_else_ignored', 'checksig_raises', 'unexecuted_or_disabled_opcode', 'no_resource_limits',
+             'csv_signed_version']
 
 
 def _cls(cid):
-    return lambda c, io, mo: cid in ref(c)[2]
+    # sessions: evaluations in which a class fired are not judged against consensus at all (session_check), so a
+    # failing session is never excused
+    return lambda c, io, mo: (not is_session(c)) and cid in ref(c)[2]
 
 
 KNOWN_CLASSES = {cid: _cls(cid) for cid in CLASS_IDS}
@@ -578,26 +852,46 @@ KNOWN_CLASSES = {cid: _cls(cid) for cid in CLASS_IDS}
 XCHECK_FAIL = []
 
 
+def xcheck(core_tok, cmds, env, msg, rv_limits):
+    """the two Core transcriptions (Coq model, extracted; the Python reference above) on one evaluation"""
+    cv, cst, lim = core_tok
+    if cv == 'UNIMPL':
+        return True
+    rv, rst, _ = core_eval(cmds, env, limits=False, msg=msg)
+    if rv == 'OUT':
+        return True
+    ok = (cv == rv) and (cv != 'VALID' or cst == stack_tok(rst))
+    if ok and lim == 'L0' and rv_limits != 'INVALID':
+        ok = False
+    return ok
+
+
 def same(c, io, mo):
-    """model answer = '<lib verdict> <lib stack> | <core verdict> <core stack> <L0|L1>'"""
+    """model answer = '<lib answer> | <core answer>'; ev: '<verdict> <stack>' | '<verdict> <stack> <L0|L1>';
+    ses: per step, joined by ';': '-' or '<verdict>:<stack>' | '-' or '<verdict>:<stack>:<L0|L1>'"""
     try:
         lib, core = mo.split(' | ')
     except ValueError:
         return False
     if lib != io:
         return False
+    if not in_domain(c):
+        return True
     # cross-check of the two Core transcriptions (Coq model vs the Python reference above)
-    cv, cst, lim = core.split(' ')
-    if cv == 'UNIMPL' or not in_domain(c):
-        return True
-    rv, rst, _ = core_eval(c.meta['cmds'], c.meta['env'], limits=False)
-    if rv == 'OUT':
-        return True
-    ok = (cv == rv) and (cv != 'VALID' or cst == stack_tok(rst))
-    if ok and lim == 'L0' and ref(c)[0] != 'INVALID':
-        ok = False
+    if is_session(c):
+        ok = True
+        for t, r in zip(core.split(';'), sref(c)):
+            if r is None:
+                ok = ok and t in ('-', 'MISSING')
+                continue
+            if 'no_message' in r[2]:
+                continue
+            ok = ok and xcheck(t.split(':'), r[3][0], r[3][2], r[3][1], r[0])
+    else:
+        m = meta_of(c)
+        ok = xcheck(core.split(' '), m['cmds'], m['env'], MESSAGE, ref(c)[0])
     if not ok:
-        XCHECK_FAIL.append((c.req, core, rv, stack_tok(rst)))
+        XCHECK_FAIL.append((c.req[:300], core[:300]))
     return ok
 
 
@@ -700,11 +994,347 @@ WITNESSES = [
 ]
 
 
+# ---------------------------------------------------------------- environment sweeps: BIP68 / BIP112 / BIP65 bit structure
+DIS, TYP = 1 << 31, 1 << 22
+ALLSTRAY = 0x7fbf0000                                   # bits 16-21 and 23-30: no meaning in BIP68
+NOSIG = '_'
+
+
+def mkenv(kind, cmds, env):
+    """like mk, without the signature tables (no signature operation in these scripts)"""
+    return Case(kind, 'ev %s %s %s %s' % (env_tok(env), NOSIG, NOSIG, cmd_tok(cmds)), meta={'cmds': list(cmds), 'env': env})
+
+
+def pad_to(b, n):
+    """a non-minimal encoding of the same number, n bytes long (b minimal, shorter than n)"""
+    if not b:
+        return b'\x00' * n
+    neg = b[-1] & 0x80
+    return b[:-1] + bytes([b[-1] & 0x7f]) + b'\x00' * (n - len(b) - 1) + bytes([0x80 if neg else 0])
+
+
+def seq_fields(dis, typ, strays, lows):
+    return [d | t | st | lo for d in dis for t in typ for st in strays for lo in lows]
+
+
+def signed_versions_on():
+    """negative versions (a caller handing over int32 values) are generated once the class csv_signed_version is
+    recorded (known or fixed) in known_findings.json / VERIF_EXTRA_KNOWN"""
+    for p in (os.path.join(VERIF, 'known_findings.json'), os.environ.get('VERIF_EXTRA_KNOWN')):
+        try:
+            if p and any(e.get('property') == PROP and e.get('id') == 'csv_signed_version'
+                         for e in json.load(open(p))['findings']):
+                return True
+        except Exception:
+            pass
+    return False
+
+
+def gen_lock_sweeps(big):
+    cs = []
+    tail = [117, 0x51]                                  # DROP 1: the verdict is the lock's, whatever the operand's truth value
+    lows = [0, 9, 10, 11, 0xffff]
+    strays_s = [0, 1 << 16, 1 << 21, 1 << 23, 1 << 30, ALLSTRAY]
+    strays_o = strays_s if big else [0, 1 << 16, ALLSTRAY]
+    operands = seq_fields((0, DIS), (0, TYP), strays_o, lows)
+    seqs = seq_fields((0, DIS), (0, TYP), strays_s, lows) + [None, 0xffffffff, 0xfffffffe]
+    versions = [None, 0, 1, 2, 3, 0x7fffffff, 0x80000000, 0xffffffff]
+    if signed_versions_on():
+        versions += [-1, -2, -0x80000000, -0x7fffffff]
+    # OP_CHECKSEQUENCEVERIFY: operand x nSequence, every combination of the three fields and the bits without meaning
+    for n in operands:
+        for sq in seqs:
+            cs.append(mkenv('csvbits', [ser(n), 178] + tail, dict(ENV_FULL, sequence=sq, version=2)))
+    ops_small = operands if big else seq_fields((0,), (0, TYP), (0, ALLSTRAY), (9, 10, 11)) + [DIS | 10, DIS | TYP | ALLSTRAY | 9]
+    seqs_small = seqs if big else seq_fields((0, DIS), (0, TYP), (0, 1 << 16), (9, 10, 11)) + [None]
+    for ver in versions:
+        if ver == 2:
+            continue
+        for n in ops_small:
+            for sq in seqs_small:
+                cs.append(mkenv('csvbits', [ser(n), 178] + tail, dict(ENV_FULL, sequence=sq, version=ver)))
+    # operand encodings: minimal, padded (same number), exactly 5 bytes, 6 bytes (number too long), negative, -0, empty
+    for v in (10, TYP | 10, DIS | 10, (1 << 16) | 10, 0xffff, DIS | TYP | 0xffff):
+        m = ser(v)
+        encs = [m, ser(-v), b'\x80', b'', b'\x00', pad_to(m, 6), b'\x0a\x00\x00\x00\x00\x80']
+        encs += [pad_to(m, k) for k in range(len(m) + 1, 6)]
+        for enc in encs:
+            for sq in (5, 10, 11, (1 << 16) | 5, TYP | 10, TYP | ALLSTRAY | 5, DIS | 10, 0xffffffff):
+                for ver in (1, 2):
+                    cs.append(mkenv('csvbits', [enc, 178] + tail, dict(ENV_FULL, sequence=sq, version=ver)))
+                    cs.append(mkenv('csvbits', [enc, 178], dict(ENV_FULL, sequence=sq, version=ver)))
+    cs.append(mkenv('csvbits', [178], ENV_FULL))
+    cs.append(mkenv('csvbits', [0x51, 178, 178, 117, 0x5a, 178], dict(ENV_FULL, sequence=(1 << 16) | 5)))
+    # OP_CHECKLOCKTIMEVERIFY: operand x nLockTime x nSequence around 500000000, 2^31, 2^32, 2^39
+    vals = [0, 1, 100, T - 1, T, T + 1, (1 << 31) - 1, 1 << 31, (1 << 31) + 1, (1 << 32) - 1, 1 << 32, (1 << 32) + 1,
+            (1 << 39) - 1, -1, -T]
+    lts = [None] + [v for v in vals if 0 <= v < (1 << 32)]
+    sqs = [None, 0, 1, 0x7fffffff, 0x80000000, 0xfffffffe, 0xffffffff, TYP | 5, 0xffff]
+    for n in vals:
+        for lt in lts:
+            for sq in (sqs if big else sqs[:7]):
+                cs.append(mkenv('cltvenv', [ser(n), 177] + tail, dict(ENV_FULL, locktime=lt, sequence=sq)))
+        if n > 0:
+            for lt in (n - 1, n, n + 1):
+                if 0 <= lt < (1 << 32):
+                    for sq in (0xfffffffe, 0xffffffff, 0):
+                        cs.append(mkenv('cltvenv', [ser(n), 177], dict(ENV_FULL, locktime=lt, sequence=sq)))
+    for v in (100, T, T + 1, 1 << 31, (1 << 32) - 1):
+        m = ser(v)
+        encs = [pad_to(m, k) for k in range(len(m) + 1, 7)] + [ser(-v), b'\x80', b'', b'\x00']
+        for enc in encs:
+            for lt in (v - 1, v, v + 1, 0, (1 << 32) - 1):
+                if 0 <= lt < (1 << 32):
+                    for sq in (0, 0xffffffff):
+                        cs.append(mkenv('cltvenv', [enc, 177] + tail, dict(ENV_FULL, locktime=lt, sequence=sq)))
+    return cs
+
+
+# ---------------------------------------------------------------- sessions: several evaluations in ONE process
+MB = hashlib.sha256(b'c19-b').digest()
+MC = hashlib.sha256(b'c19-c').digest()
+MSGS = [MESSAGE, MB, MC]
+PK1, PK2, PK3 = pub_of(1), pub_of(2), pub_of(3)
+SKEYS = {1: PK1, 2: PK2, 3: PK3}
+SG = {(d, m): ecdsa_sign(d, m) for d in SKEYS for m in MSGS}          # SG[d, m] is valid for key d under message m only
+assert PK1 == PKA
+# the frozen table of the `ev` universe is what real ECDSA says about it, and the harness's own signatures verify
+assert all(sig_ok(MESSAGE, sg, k) == ((sg, k) in VALID_PAIRS) for sg in SIGS for k in KEYS)
+assert all(sig_ok(m2, SG[d, m], SKEYS[d2]) == (m == m2 and d == d2) for (d, m) in SG for m2 in MSGS for d2 in SKEYS)
+
+
+def hash160(b):
+    return ripemd160(hashlib.sha256(b).digest())
+
+
+def menv_tok(env):
+    return 'N' if env is None else env_tok(env)
+
+
+def session_tables(steps):
+    """the signature oracle of the models for this session, (message, signature, key) -> V | I, computed with sig_ok:
+    library: parsable signature and parsable (or empty) key verify or not, anything else raises, no message raises;
+    Core: a BIP66 signature verifies or not against any key bytes"""
+    sigs, keys, msgs = [], [], []
+    for st in steps:
+        if st[0] == 'N':
+            for x in st[2]:
+                if isinstance(x, bytes):
+                    if der_ok(x) and x not in sigs:
+                        sigs.append(x)
+                    if key_point(x) is not None and x not in keys:
+                        keys.append(x)
+    for r in resolve(steps):
+        if r is not None and r != 'missing' and r[1] is not None and r[1] not in msgs:
+            msgs.append(r[1])
+    lib, core = [], []
+    for m in msgs:
+        for sg in sigs:
+            for k in keys:
+                v = 'V' if sig_ok(m, sg, k) else 'I'
+                lib.append('%s/%s/%s=%s' % (m.hex(), sg.hex(), k.hex(), v))
+                if v == 'V':
+                    core.append('%s/%s/%s=V' % (m.hex(), sg.hex(), k.hex()))
+            lib.append('%s/%s/-=I' % (m.hex(), sg.hex()))
+            core.append('%s/%s/*=I' % (m.hex(), sg.hex()))
+    return ','.join(lib) or '_', ','.join(core) or '_'
+
+
+def mkses(kind, steps):
+    toks = []
+    for st in steps:
+        if st[0] == 'N':
+            toks.append('N/%d/%s/%s/%s' % (st[1], cmd_tok(st[2]), 'N' if st[3] is None else st[3].hex(), menv_tok(st[4])))
+        else:
+            toks.append('E/%d/%s/%s' % (st[1], 'N' if st[2] is None else st[2].hex(), menv_tok(st[3])))
+    lib, core = session_tables(steps)
+    return Case(kind, 'ses %s %s %s' % (lib, core, ' '.join(toks)), meta={'steps': steps})
+
+
+class Ses:
+    def __init__(self):
+        self.steps, self.n = [], 0
+
+    def new(self, cmds, msg=None, env=None):
+        self.n += 1
+        self.steps.append(('N', self.n, list(cmds), msg, env))
+        return self.n
+
+    def ev(self, i, msg=None, env=None):
+        self.steps.append(('E', i, msg, env))
+
+    def fresh(self, cmds, msg=None, env=None):
+        """the adapter's usual way: a new object for every evaluation"""
+        self.ev(self.new(cmds), msg, env)
+
+
+def spend_templates(sg, pk):
+    return [
+        [sg, pk, 172],                                                  # P2PK
+        [sg, pk, 118, 169, hash160(pk), 136, 172],                       # P2PKH
+        [sg, pk, 173, 0x51],                                            # CHECKSIGVERIFY 1
+        [sg, pk, 0x51, 99, 172, 103, 109, 0x00, 104],                    # 1 IF CHECKSIG ELSE 2DROP 0 ENDIF
+        [sg, pk, 172, 145],                                             # CHECKSIG NOT (valid iff the signature is not)
+        [sg, pk, 118, 169, hash160(pk), 136, 173, 0x52, 0x53, 147],      # P2PKH-VERIFY then 2 3 ADD
+    ]
+
+
+CLEAN_PROGRAMS = [
+    [0x52, 0x53, 147, 0x55, 135],                                       # 2 3 ADD 5 EQUAL
+    [0x51, 99, 0x52, 103, 0x53, 104, 0x57, 0x58],                        # 1 IF 2 ELSE 3 ENDIF 7 8   (leaves 2 7)
+    [0x00, 100, 0x51, 99, 0x55, 103, 0x56, 104, 103, 0x57, 104, 118],    # 0 NOTIF 1 IF 5 ELSE 6 ENDIF ELSE 7 ENDIF DUP
+    [0x00, 99, 0x52, 103, 0x53, 0x54, 104, 116],                         # 0 IF 2 ELSE 3 4 ENDIF DEPTH
+    [b'abc', 168, 130, 0x01 + 0x50, 117, 117, 0x51],                      # SHA256 SIZE ... DROP DROP 1
+    [0x55, 0x56, 0x57, 123, 124, 110, 111],                              # ROT SWAP 2DUP 3DUP
+    [0x51, 0x00, 99, 103, 0x51, 99, 0x5a, 104, 104],                      # nested IF inside ELSE
+    [0x53, 118, 147, 139, 140, 143, 144],                                # arithmetic chain
+]
+
+
+def clean_program(rng):
+    """a random program (nested conditionals) in whose consensus evaluation no recorded deviation class fires"""
+    for _ in range(40):
+        n0 = rng.randrange(0, 4)
+        pre = [rand_push(rng) for _ in range(n0)]
+        body, _ = rand_block(rng, 0, rng.randrange(2, 14), n0)
+        if rng.random() < 0.6:
+            body.append(rng.choice([0x51, 0x52, 0x00]))
+        cmds = (pre + body)[:24]
+        if not cmds_in_domain(cmds):
+            continue
+        rv, _, trig = core_eval(cmds, ENV_FULL)
+        if rv != 'OUT' and not trig:
+            return cmds
+    return rng.choice(CLEAN_PROGRAMS)
+
+
+def lock_script(kind, n):
+    return [ser(n), 178 if kind == 'csv' else 177, 117, 0x51]
+
+
+def gen_sessions(rng, big):
+    cs = []
+    mult = 10 if big else 1
+
+    def noise(s, k=1):
+        for _ in range(k):
+            prog = rng.choice(CLEAN_PROGRAMS) if rng.random() < 0.5 else clean_program(rng)
+            s.fresh(prog, rng.choice(MSGS + [None]), rng.choice([None, ENV_FULL, {}]))
+
+    # --- A: one signature / key pair under different messages (valid then invalid, invalid then valid, again)
+    for d in SKEYS:
+        for ti in range(6):
+            for pat in range(6):
+                for rep in range(mult):
+                    m1, m2 = rng.sample(MSGS, 2)
+                    sg = SIGA if (d == 1 and m1 == MESSAGE and rng.random() < 0.5) else SG[d, m1]
+                    t = spend_templates(sg, SKEYS[d])[ti]
+                    s = Ses()
+                    if rng.random() < 0.3:
+                        noise(s)
+                    if pat == 0:                                    # fresh objects: valid, replayed, valid again
+                        s.fresh(t, m1); s.fresh(t, m2); s.fresh(t, m1)
+                    elif pat == 1:                                  # fresh objects: wrong digest first, then the right one
+                        s.fresh(t, m2); s.fresh(t, m1); s.fresh(t, m2)
+                    elif pat == 2:                                  # ONE object evaluated again and again
+                        o = s.new(t)
+                        s.ev(o, m1); s.ev(o, m2); s.ev(o, m1); s.ev(o, m1)
+                    elif pat == 3:                                  # message given to the constructor
+                        a = s.new(t, m1); b = s.new(t, m2)
+                        s.ev(a); s.ev(b); s.ev(a); s.ev(b, m1)
+                    elif pat == 4:                                  # interleaved with unrelated work and another key
+                        d2 = rng.choice([x for x in SKEYS if x != d])
+                        t2 = rng.choice(spend_templates(SG[d2, m2], SKEYS[d2]))
+                        s.fresh(t, m1); noise(s); s.fresh(t2, m2); s.fresh(t, m2); s.fresh(t2, m1); noise(s); s.fresh(t, m1)
+                    else:                                           # the same signature in two different scripts
+                        t3 = spend_templates(sg, SKEYS[d])[(ti + 1 + rng.randrange(5)) % 6]
+                        s.fresh(t, m2); s.fresh(t3, m1); s.fresh(t3, m2); s.fresh(t, m1)
+                    cs.append(mkses('ses_replay', s.steps))
+    # two signatures in one script, each for its own message: never both valid
+    for rep in range(4 * mult):
+        d1, d2 = rng.sample(list(SKEYS), 2)
+        m1, m2 = rng.sample(MSGS, 2)
+        t = [SG[d1, m1], SKEYS[d1], 173, SG[d2, m2], SKEYS[d2], 172]
+        t_ok = [SG[d1, m1], SKEYS[d1], 173, SG[d2, m1], SKEYS[d2], 172]
+        s = Ses()
+        s.fresh(t_ok, m1); s.fresh(t, m1); s.fresh(t, m2); s.fresh(t_ok, m2); s.fresh(t_ok, m1)
+        cs.append(mkses('ses_replay', s.steps))
+    # --- B: the same script under different env_data (relative / absolute locks), same object and fresh objects
+    csv_envs = [dict(ENV_FULL, sequence=sq, version=v) for sq in (5, 10, 11, (1 << 16) | 5, TYP | 10, DIS | 11, 0xffffffff)
+                for v in (1, 2)]
+    cltv_envs = [dict(ENV_FULL, locktime=lt, sequence=sq) for lt in (99, 100, 101, T, T + 100) for sq in (0, 0xffffffff)]
+    for rep in range(24 * mult):
+        kind = rng.choice(['csv', 'cltv'])
+        n = rng.choice([10, TYP | 10, (1 << 16) | 10]) if kind == 'csv' else rng.choice([100, T + 50])
+        t = lock_script(kind, n)
+        envs = csv_envs if kind == 'csv' else cltv_envs
+        s = Ses()
+        o = s.new(t, None, rng.choice(envs)) if rng.random() < 0.5 else s.new(t)
+        for _ in range(rng.randrange(3, 7)):
+            e = rng.choice(envs)
+            r = rng.random()
+            if r < 0.4:
+                s.ev(o, None, e)
+            elif r < 0.8:
+                s.fresh(t, None, e)
+            else:
+                s.ev(o)                                             # keeps the env_data of the call before
+        if rng.random() < 0.4:
+            noise(s)
+        s.ev(o, None, rng.choice(envs))
+        cs.append(mkses('ses_env', s.steps))
+    # a contract with both: <sig> <sel> IF <pkA> ELSE <lock> CLTV DROP <pkB> ENDIF CHECKSIG, message and env vary together
+    for rep in range(12 * mult):
+        da, db = rng.sample(list(SKEYS), 2)
+        m1, m2 = rng.sample(MSGS, 2)
+        body = [99, SKEYS[da], 103, ser(100), 177, 117, SKEYS[db], 104, 172]
+        claim = [SG[da, m1], 0x51] + body
+        refund = [SG[db, m1], 0x00] + body
+        s = Ses()
+        oc, orf = s.new(claim), s.new(refund)
+        for _ in range(rng.randrange(4, 8)):
+            s.ev(rng.choice([oc, orf]), rng.choice([m1, m2]), rng.choice(cltv_envs))
+        cs.append(mkses('ses_env', s.steps))
+    # --- C: the same Script object evaluated twice (conditionals consume the command list, runs leave a stack behind)
+    for rep in range(30 * mult):
+        prog = CLEAN_PROGRAMS[rep % len(CLEAN_PROGRAMS)] if rep < 2 * len(CLEAN_PROGRAMS) else clean_program(rng)
+        s = Ses()
+        o = s.new(prog, rng.choice([None, MESSAGE]), rng.choice([None, ENV_FULL]))
+        s.ev(o); s.ev(o)
+        if rng.random() < 0.5:
+            noise(s)
+        s.ev(o, rng.choice([None, MB]), rng.choice([None, ENV_FULL, {}]))
+        o2 = s.new(prog)
+        s.ev(o2); s.ev(o)
+        cs.append(mkses('ses_object', s.steps))
+    # --- D: free mixture over a pool of objects
+    for rep in range(40 * mult):
+        s = Ses()
+        pool = []
+        for _ in range(rng.randrange(2, 5)):
+            r = rng.random()
+            if r < 0.5:
+                d, m = rng.choice(list(SKEYS)), rng.choice(MSGS)
+                pool.append(s.new(rng.choice(spend_templates(SG[d, m], SKEYS[d])), rng.choice([None, m, MB]),
+                                  rng.choice([None, ENV_FULL])))
+            elif r < 0.75:
+                pool.append(s.new(lock_script('csv', rng.choice([10, TYP | 10])), None, rng.choice([None] + csv_envs)))
+            else:
+                pool.append(s.new(clean_program(rng), rng.choice([None, MC])))
+        for _ in range(rng.randrange(5, 12)):
+            s.ev(rng.choice(pool), rng.choice([None, None] + MSGS), rng.choice([None, None, ENV_FULL] + csv_envs[:6]))
+        cs.append(mkses('ses_mix', s.steps))
+    return cs
+
+
 def gen_cases(rng, tier):
     big = tier == 'thorough'
     cs = []
     for w in WITNESSES:
         cs.append(mk('corpus', w))
+    srng = __import__('random').Random(rng.getrandbits(64))
+    cs += gen_sessions(srng, big)
+    cs += gen_lock_sweeps(big)
     cs.append(mk('corpus', [b'\x64', 177], dict(ENV_FULL, locktime=60000000)))        # 100 CLTV, tx locktime 6e7 (fixed: C19-1)
     cs.append(mk('corpus', [0x51, 178], dict(ENV_FULL, sequence=0, version=1)))        # 1 CSV, version 1 (fixed: C19-2)
     cs.append(mk('corpus', ms_script([SIGA], 1, [PKA])))
